@@ -116,8 +116,21 @@ def worker(run, shape):
     sq1, r1, e1, t1, o1 = classify(T1, uf)
     if o0 or o1 or set(sq0) != set(range(64)) or set(sq1) != set(range(64)) or any(len(v) != 1 for v in sq0.values()) \
             or any(len(v) != 1 for v in sq1.values()):
-        run.inconclusive.append('%s: from-scratch key term does not have the expected XOR shape (%d/%d square words, %d/%d other)'
-                                % (name, len(sq0), len(sq1), len(o0), len(o1)))
+        # the per-square decomposition needs the from-scratch key to be a flat XOR of one word per square; a rewritten
+        # ZKey::from may not give that shape.  Fallback: ask the solver directly for a state and move where the incremental
+        # key and the from-scratch key disagree (table words stay uninterpreted).  Finding a counterexample is usually easy
+        # when there is one; proving there is none is the parity problem the decomposition exists for, so anything but
+        # `sat` leaves this shape inconclusive.
+        qd = run.decide('%s/direct-search-for-a-mismatch' % name, pre + [g, S.zkey == F0, key1 != F1], kind='smt', timeout=45,
+                        note='fallback (no per-square shape): exists S, mv with zkey(S) == F(S) and zkey(make(S, mv)) != F(make(S, mv))')
+        if qd.verdict == 'unknown' and run.inconclusive and 'direct-search' in run.inconclusive[-1]:
+            run.inconclusive.pop()
+        if qd.verdict == 'sat':
+            replay_make_mismatch(run, name, qd.model, S, m)
+        else:
+            run.queries.pop()
+            run.inconclusive.append('%s: from-scratch key term does not have the expected XOR shape (%d/%d square words, %d/%d other); direct search: %s'
+                                    % (name, len(sq0), len(sq1), len(o0), len(o1), qd.verdict))
         return
     # (1) flattening is faithful (AC-normalisation checked by the solver)
     q = run.decide('%s/flatten' % name, [z3.Or(F0 != xor_all(T0), F1 != xor_all(T1))], kind='smt', note='F == XOR of its extracted summands')
@@ -208,31 +221,33 @@ def worker(run, shape):
     failed = bad_squares or q3.verdict == 'sat' or q4.verdict == 'sat'
     if failed:
         qq = bad_squares[0][1] if bad_squares else (q3 if q3.verdict == 'sat' else q4)
-        # replay: native make, then compare the incremental key with the from-scratch key
-        model = qq.model
-        btoks = BS.board_tokens_from_model(model, S)
-        # make the pre-state's key consistent with the real table first
-        stt, kf = BS.native_board_cmd(run, 'zkey_from', btoks)
-        if stt == 'OK':
-            btoks[-1] = kf[0]
-        ptoks = BS.shape_ply_tokens(model, m)
-        stt, out = BS.native_board_cmd(run, 'make', btoks, ptoks)
-        if stt == 'OK':
-            stt2, kf2 = BS.native_board_cmd(run, 'zkey_from', out)
-            d1 = BS.parse_board_tokens(out)
-            if stt2 == 'OK' and int(kf2[0]) != d1['zkey']:
-                run.violation('after make_move (%s) the incremental key %d differs from the from-scratch key %s'
-                              % (name, d1['zkey'], kf2[0]),
-                              {'cmd': 'make+zkey_from', 'board': btoks, 'ply': ptoks, 'incremental': d1['zkey'], 'from_scratch': int(kf2[0])})
-            else:
-                run.inconclusive.append('%s: key counterexample does not reproduce natively' % name)
-        else:
-            run.inconclusive.append('%s: native replay failed: %s %s' % (name, stt, out))
+        replay_make_mismatch(run, name, qq.model, S, m)
     if len(run.samples) < 1:
         run.samples.append({'shape': name, 'square_word_example': str(sq0[12][0])[:400], 'reference_change_example': str(D[12])[:400]})
     for ob, qq in run.check_obligations(ex, '%s/key' % name, kinds=('unwind', 'unreachable')):
         run.inconclusive.append('%s: %s obligation sat' % (name, ob.kind))
     run.absorb(ex)
+
+
+def replay_make_mismatch(run, name, model, S, m):
+    """replay: native make_move from the model's position (its key first made consistent with the real table), then compare
+    the incremental key with the from-scratch key"""
+    btoks = BS.board_tokens_from_model(model, S)
+    stt, kf = BS.native_board_cmd(run, 'zkey_from', btoks)
+    if stt == 'OK':
+        btoks[-1] = kf[0]
+    ptoks = BS.shape_ply_tokens(model, m)
+    stt, out = BS.native_board_cmd(run, 'make', btoks, ptoks)
+    if stt == 'OK':
+        stt2, kf2 = BS.native_board_cmd(run, 'zkey_from', out)
+        d1 = BS.parse_board_tokens(out)
+        if stt2 == 'OK' and int(kf2[0]) != d1['zkey']:
+            run.violation('after make_move (%s) the incremental key %d differs from the from-scratch key %s' % (name, d1['zkey'], kf2[0]),
+                          {'cmd': 'make+zkey_from', 'board': btoks, 'ply': ptoks, 'incremental': d1['zkey'], 'from_scratch': int(kf2[0])})
+        else:
+            run.inconclusive.append('%s: key counterexample does not reproduce natively' % name)
+    else:
+        run.inconclusive.append('%s: native replay failed: %s %s' % (name, stt, out))
 
 
 def composition_gf2(ne):
